@@ -123,7 +123,11 @@ ValsOf(d) ==
      [] d.d = "f32"    -> { [k |-> "float", w |-> 4, bits |-> b] : b \in {<<63, 128, 0, 0>>, <<255, 192, 0, 1>>, <<128, 0, 0, 0>>} }
      [] d.d = "f64"    -> { [k |-> "float", w |-> 8, bits |-> b] : b \in {<<63, 240, 0, 0, 0, 0, 0, 0>>, <<127, 248, 0, 0, 0, 0, 0, 1>>} }
      [] d.d = "text"   -> { [k |-> "text", b |-> b] : b \in {<<>>, <<97>>, <<195, 169, 33>>, [i \in 1..24 |-> 97 + i]} }
-     [] d.d = "bytes"  -> IF d.n >= 0 THEN { [k |-> "bytes", b |-> Rep(0, d.n)], [k |-> "bytes", b |-> [i \in 1..d.n |-> 250 + (i % 5)]] }
+     [] d.d = "bytes"  -> IF d.n >= 0 THEN { [k |-> "bytes", b |-> Rep(0, d.n)], [k |-> "bytes", b |-> [i \in 1..d.n |-> 250 + (i % 5)]], [k |-> "bytes", b |-> Rep(255, d.n)] }
+                                               \* address classes the standard library treats specially: loopback, IPv4-mapped, IPv4-compatible
+                                               \cup (IF d.n = 16 THEN { [k |-> "bytes", b |-> Rep(0, 15) \o <<1>>], [k |-> "bytes", b |-> Rep(0, 10) \o <<255, 255, 192, 0, 2, 1>>],
+                                                                        [k |-> "bytes", b |-> Rep(0, 12) \o <<192, 0, 2, 1>>] } ELSE {})
+                                               \cup (IF d.n = 4 THEN { [k |-> "bytes", b |-> <<127, 0, 0, 1>>] } ELSE {})
                           ELSE { [k |-> "bytes", b |-> b] : b \in {<<>>, <<0>>, <<255, 1>>, Rep(7, 24)} }
      [] d.d = "cstr"   -> { [k |-> "bytes", b |-> b] : b \in {<<>>, <<104, 105>>} }
      [] d.d = "opt"    -> {[k |-> "none"]} \cup { [k |-> "some", x |-> x] : x \in ValsOf(d.e) }
